@@ -7,7 +7,10 @@
      an element of `captures`) when choosing among groups that share a name;
  (c) both successful_match functions build `captures` from one in-order pass over the whole group store
      (no skip/take/rev/filter);
- (d) Node::CaptureGroup is constructed only by the parser (and by derive(Clone)).
+ (d) Node::CaptureGroup is constructed only by the parser (and by derive(Clone));
+ (e) every api::Match is built with a clone of the compiled regex's `group_names` on every path (directly or through a parameter
+     whose every call site passes one): a match without the table answers named_group() with None while group(i) is Some;
+ (f) the capture-group pre-scan (collect_named_group_locations) skips an escaped character in each of its scanning loops.
 """
 import json
 import re
@@ -312,4 +315,110 @@ def check(facts):
                    facts.loc(fn, line))
     if not any(fn.startswith("parse::Parser") for fn, _ in sites):
         r.error("parser construction site of Node::CaptureGroup not found")
+
+    # (e) every Match carries the regex's name table
+    def from_table(b, o, pending, depth=0, seen=None):
+        """every definition of the operand is a (clone of a) read of a `group_names` field; a parameter is deferred to the callers"""
+        seen = seen if seen is not None else set()
+        if o.get("k") not in ("copy", "move") or depth > 8:
+            return False
+        rt, pr = b.root_of(o["pl"]["l"])
+        fl = [x.get("f") for x in pr if isinstance(x, dict) and "f" in x] + core.proj_fields(o["pl"])
+        if fl and fl[-1] == "group_names":
+            return True
+        l = o["pl"]["l"]
+        if 1 <= l <= b.argc and not o["pl"]["p"]:
+            pending.append(l)
+            return True
+        if l in seen:
+            return True
+        seen.add(l)
+        ds = b.defs().get(l, [])
+        if not ds:
+            return False
+        for d in ds:
+            if d[2] == "call":
+                cal = (d[3].get("callee") or "").split("::")[-1]
+                if cal in ("clone", "deref", "borrow", "as_ref", "into", "from", "to_owned") and d[3]["args"] and \
+                        from_table(b, d[3]["args"][0], pending, depth + 1, seen):
+                    continue
+                return False
+            rv = d[3]["rv"]
+            if rv["k"] in ("use", "cast") and from_table(b, rv["op"], pending, depth + 1, seen):
+                continue
+            if rv["k"] == "ref" and from_table(b, {"k": "copy", "pl": rv["pl"]}, pending, depth + 1, seen):
+                continue
+            return False
+        return True
+    nm = 0
+    MSG = ("does not (on every path) take its `group_names` from the compiled regex's table: named_group()/named_groups() of that match "
+           "find nothing although group(i) does — e.g. an empty table on an anchored fast path, or when no group participated")
+    for fn in sorted(facts.body_names()):
+        if "::tests::" in fn:
+            continue
+        b = facts.body(fn)
+        k = 0
+        for bi, i, st in b.iter_stmts():
+            if st["k"] != "assign" or st["rv"]["k"] != "agg" or not str(st["rv"].get("adt", "")).endswith("api::Match"):
+                continue
+            flds = st["rv"].get("fields") or []
+            if "group_names" not in flds:
+                continue
+            nm += 1
+            k += 1
+            op = st["rv"]["ops"][flds.index("group_names")]
+            base = re.sub(r"::\{closure#\d+\}", "", fn)
+            key = "%s Match #%d carries the regex's group names" % (base, k)
+            pending = []
+            if not from_table(b, op, pending):
+                r.fail(key, "the Match built at line %s %s" % (st["line"], MSG), facts.loc(fn, st["line"]))
+                continue
+            r.ok(key, "a clone of <regex>.group_names" + (" (through parameter %s)" % ", ".join(b.local_name(l) or "_%d" % l for l in pending) if pending else ""))
+            for l in pending:
+                ncall = 0
+                for cn in sorted(facts.body_names()):
+                    cb = facts.body(cn)
+                    for bb, t in cb.iter_calls():
+                        if (t.get("callee") or "") != fn or len(t["args"]) < l:
+                            continue
+                        ncall += 1
+                        ck = "%s passes the regex's group names to %s #%d" % (re.sub(r"::\{closure#\d+\}", "", cn), fn.split("::")[-1], ncall)
+                        p2 = []
+                        if from_table(cb, t["args"][l - 1], p2) and not p2:
+                            r.ok(ck)
+                        else:
+                            r.fail(ck, "the name table handed to %s at line %s %s" % (fn.split("::")[-1], t.get("line"), MSG), facts.loc(cn, t.get("line")))
+                if not ncall:
+                    r.error("%s: no call site found for the function that receives the name table as a parameter" % fn)
+    r.floor("match_constructions", nm, 2)
+
+    # (f) the capture-group pre-scan skips an escaped character in every scanning loop: the top-level scan and the two class-skipping
+    # loops (legacy and v-mode) each test for `\\` wherever they test for a bracket or parenthesis
+    pre = [n for n in facts.body_names() if n.endswith("::collect_named_group_locations")]
+    if not pre:
+        r.error("anchor collect_named_group_locations not found")
+    for fn in pre:
+        b = facts.body(fn)
+        dom = b.dom()
+        ns = 0
+        for bi in sorted(b.reachable()):
+            t = b.blocks[bi]["t"]
+            if t["k"] != "switch" or t.get("dty") != "char":
+                continue
+            vals = {v: tg for v, tg in t["targets"]}
+            if not ({0x5B, 0x5D, 0x28} & set(vals)):
+                continue
+            ns += 1
+            key = "%s scan #%d skips escaped characters" % (fn, ns)
+            tg = vals.get(0x5C)
+            consumes = tg is not None and any((tt.get("callee") or "").split("::")[-1] == "next" and (x == tg or tg in dom[x])
+                                              for x, tt in b.iter_calls())
+            if consumes:
+                r.ok(key, "`\\` arm consumes the escaped character")
+            else:
+                r.fail(key, "the scanning loop at line %s looks for %s but has no arm that skips an escaped character: `\\[` / `\\]` / `\\(` inside "
+                            "it is taken for syntax, the scan loses its place and capture groups after it are not counted (`\\1` becomes an "
+                            "octal escape, `\\k<n>` literal text)" % (t.get("line"), sorted(chr(v) for v in vals if v in (0x5B, 0x5D, 0x28))),
+                       facts.loc(fn, t.get("line")))
+        r.floor("prescan_loops", ns, 3)
     return r
